@@ -177,6 +177,9 @@ def rf_configs(draw, spf_cap=4096, boundary_p=0.6, force=None):
             if K > 0 and ((cur_t + K * unit_t + 10 ** 6) * n) // d < (1 << 62) and cur_t + K * unit_t < 253402000000:
                 cfg["start"] += K * unit_k
         cfg["era"] = era
+    # one recording in six is made by a process that receives a periodic signal all the time (rfharness.run_python); derived
+    # from values drawn anyway, so that adding this dimension did not shift any other draw
+    cfg["sigtimer"] = (cfg["start"] * 31 + cfg["salt"]) % 6 == 0
     return cfg
 
 
